@@ -109,14 +109,16 @@ def b_control(c):
     return sl.LDAPControl(oid, crit, value)
 
 
-def fresh(x):
+def fresh(x, as_bytearray=False):
     """A deep copy of an abstract value made of new bytes/str objects: objects built from it own their field values, so
     those die with the object (as in an application that builds a value, uses it and drops it) and their addresses get
     reused by later values."""
     if isinstance(x, tuple):
-        return tuple(fresh(y) for y in x)
+        return tuple(fresh(y, as_bytearray) for y in x)
     if isinstance(x, bytes):
-        return bytes(bytearray(x))
+        # as_bytearray: the caller holds its octets in a bytearray (a receive buffer, a struct.pack_into target):
+        # bytes-like, compares equal to bytes, and accepted wherever the library encodes or renders octets
+        return bytearray(x) if as_bytearray else bytes(bytearray(x))
     if isinstance(x, str) and not isinstance(x, enum.Enum):
         return (x + " ")[:-1]
     return x
